@@ -30,6 +30,11 @@ def hint_cases(prop, tier, seed):
         quick_names = {n for n, _h in grammar.hint_set('quick', seed)}
         k = THOROUGH_STRIDE[prop]
         rest = [x for x in hs if x[0] not in quick_names]
+        if prop == 'C01':
+            # every 8th of the random depth-3 hints (the full 2 000 pushed the run past 90 minutes)
+            seeded = [n for n, _h in grammar.seeded_hints(seed, 2000)]
+            drop = set(seeded) - set(seeded[::8])
+            rest = [x for x in rest if x[0] not in drop]
         if prop == 'C02':
             # the randomly generated depth-3 hints make C02's per-index reachability queries run into the solver
             # budget one after the other (measured: the last 1 500 of 11 500 cases took longer than the first 10 000)
